@@ -1300,3 +1300,87 @@ Proof.
     + repeat constructor; lia.
     + split; [lia|exact A].
 Qed.
+
+(* ------------------------------------------------------------------------------------ *)
+(* every constructor / mutator / rule maps well-formed arguments to a well-formed result  *)
+(* ------------------------------------------------------------------------------------ *)
+
+Lemma scalar_shape_wf : wf scalar_shape.
+Proof.
+  constructor; cbn [scalar_shape dims batch volume length].
+  - lia.
+  - constructor.
+  - reflexivity.
+  - lia.
+  - reflexivity.
+  - rewrite prodN_nil. unfold P32. lia.
+Qed.
+
+Definition rules_preserve_wf : Prop :=
+  wf scalar_shape /\
+  (forall ds b r, Forall u32 ds -> u32 b -> mk_shape ds b = Some r -> wf r) /\
+  (forall s dim m r, wf s -> u32 dim -> u32 m -> update_dim s dim m = Some r -> wf r) /\
+  (forall s b r, wf s -> u32 b -> update_batch s b = Some r -> wf r) /\
+  (forall a b r, wf a -> wf b -> reshape a b = Some r -> wf r) /\
+  (forall x r, wf x -> flatten x = Some r -> wf r) /\
+  (forall x k r, wf x -> wf k -> scalar_op x k = Some r -> wf r) /\
+  (forall a b r, wf a -> wf b -> elementwise a b = Some r -> wf r) /\
+  (forall x dim lo up r, wf x -> u32 dim -> u32 lo -> u32 up -> slice x dim lo up = Some r -> wf r) /\
+  (forall xs dim r, Forall wf xs -> u32 (N.of_nat (length xs)) -> u32 dim ->
+                    concat xs dim = Some r -> wf r) /\
+  (forall x dim sz r, wf x -> u32 dim -> u32 sz -> broadcast x dim sz = Some r -> wf r) /\
+  (forall x ids dim r, wf x -> Forall u32 ids -> u32 (N.of_nat (length ids)) -> u32 dim ->
+                       pick x ids dim = Some r -> wf r) /\
+  (forall x r, wf x -> transpose x = Some r -> wf r) /\
+  (forall x perm r, wf x -> Forall u32 perm -> permute_dims x perm = Some r -> wf r) /\
+  (forall a b r, wf a -> wf b -> matmul a b = Some r -> wf r) /\
+  (forall x w p0 p1 s0 s1 d0 d1 r, wf x -> wf w ->
+     u32 p0 -> u32 p1 -> u32 s0 -> u32 s1 -> u32 d0 -> u32 d1 ->
+     conv2d x w p0 p1 s0 s1 d0 d1 = Some r -> wf r) /\
+  (forall x w0 w1 p0 p1 s0 s1 r, wf x ->
+     u32 w0 -> u32 w1 -> u32 p0 -> u32 p1 -> u32 s0 -> u32 s1 ->
+     pool2d x w0 w1 p0 p1 s0 s1 = Some r -> wf r) /\
+  (forall x ids r, wf x -> Forall u32 ids -> u32 (N.of_nat (length ids)) ->
+                   batch_pick x ids = Some r -> wf r) /\
+  (forall x lo up r, wf x -> u32 lo -> u32 up -> batch_slice x lo up = Some r -> wf r) /\
+  (forall xs r, Forall wf xs -> u32 (N.of_nat (length xs)) -> batch_concat xs = Some r -> wf r) /\
+  (forall x dim n r, wf x -> u32 dim -> u32 n -> split x dim n = Some r -> wf r) /\
+  (forall x n r, wf x -> u32 n -> batch_split x n = Some r -> wf r) /\
+  (forall x t dim r, wf x -> wf t -> u32 dim -> sce x t dim = Some r -> wf r) /\
+  (forall x dim r, wf x -> u32 dim -> reduce x dim = Some r -> wf r) /\
+  (forall sz r, u32 sz -> identity sz = Some r -> wf r) /\
+  (forall x r, wf x -> batch_sum x = Some r -> wf r).
+
+Local Ltac by_spec S E := rewrite E in S; tauto.
+
+Theorem canonical_reachable : rules_preserve_wf.
+Proof.
+  unfold rules_preserve_wf. split; [exact scalar_shape_wf|].
+  split. { intros ds b r H1 H2 E. apply (mk_shape_some ds b r H1 H2 E). }
+  split. { intros s dim m r H1 H2 H3 E. pose proof (update_dim_spec s dim m H1 H2 H3) as S. by_spec S E. }
+  split. { intros s b r H1 H2 E. pose proof (update_batch_spec s b H1 H2) as S. by_spec S E. }
+  split. { intros a b r H1 H2 E. pose proof (reshape_spec a b H1 H2) as S. by_spec S E. }
+  split. { intros x r H1 E. pose proof (flatten_spec x H1) as S. by_spec S E. }
+  split. { intros x k r H1 H2 E. pose proof (scalar_op_spec x k H1 H2) as S. by_spec S E. }
+  split. { intros a b r H1 H2 E. pose proof (elementwise_spec a b H1 H2) as S. by_spec S E. }
+  split. { intros x dim lo up r H1 H2 H3 H4 E. pose proof (slice_spec x dim lo up H1 H2 H3 H4) as S. by_spec S E. }
+  split. { intros xs dim r H1 H2 H3 E. pose proof (concat_spec xs dim H1 H2 H3) as S. by_spec S E. }
+  split. { intros x dim sz r H1 H2 H3 E. pose proof (broadcast_spec x dim sz H1 H2 H3) as S. by_spec S E. }
+  split. { intros x ids dim r H1 H2 H3 H4 E. pose proof (pick_spec x ids dim H1 H2 H3 H4) as S. by_spec S E. }
+  split. { intros x r H1 E. pose proof (transpose_spec x H1) as S. by_spec S E. }
+  split. { intros x perm r H1 H2 E. pose proof (permute_dims_spec x perm H1 H2) as S. by_spec S E. }
+  split. { intros a b r H1 H2 E. pose proof (matmul_spec a b H1 H2) as S. by_spec S E. }
+  split. { intros x w p0 p1 s0 s1 d0 d1 r H1 H2 H3 H4 H5 H6 H7 H8 E.
+           pose proof (conv2d_spec x w p0 p1 s0 s1 d0 d1 H1 H2 H3 H4 H5 H6 H7 H8) as S. by_spec S E. }
+  split. { intros x w0 w1 p0 p1 s0 s1 r H1 H2 H3 H4 H5 H6 H7 E.
+           pose proof (pool2d_spec x w0 w1 p0 p1 s0 s1 H1 H2 H3 H4 H5 H6 H7) as S. by_spec S E. }
+  split. { intros x ids r H1 H2 H3 E. pose proof (batch_pick_spec x ids H1 H2 H3) as S. by_spec S E. }
+  split. { intros x lo up r H1 H2 H3 E. pose proof (batch_slice_spec x lo up H1 H2 H3) as S. by_spec S E. }
+  split. { intros xs r H1 H2 E. pose proof (batch_concat_spec xs H1 H2) as S. by_spec S E. }
+  split. { intros x dim n r H1 H2 H3 E. pose proof (split_spec x dim n H1 H2 H3) as S. by_spec S E. }
+  split. { intros x n r H1 H2 E. pose proof (batch_split_spec x n H1 H2) as S. by_spec S E. }
+  split. { intros x t dim r H1 H2 H3 E. pose proof (sce_spec x t dim H1 H2 H3) as S. by_spec S E. }
+  split. { intros x dim r H1 H2 E. pose proof (reduce_spec x dim H1 H2) as S. by_spec S E. }
+  split. { intros sz r H1 E. pose proof (identity_spec sz H1) as S. by_spec S E. }
+  intros x r H1 E. pose proof (batch_sum_spec x H1) as S. by_spec S E.
+Qed.
